@@ -332,6 +332,14 @@ def gen_sequence(r, nops):
                         alt[i] = 0xfe if x == 0xff else 0xff
                         break
                 pools.append(("b", bytes(alt)))
+                # and the VALID spelling of the same units: the first invalid byte replaced by EF BF BD (U+FFFD) when
+                # that byte decodes to U+FFFD on its own
+                for i, x in enumerate(b):
+                    if x in (0xff, 0xfe, 0xc0, 0xc1, 0xf5, 0xf8):
+                        alt2 = b[:i] + b"\xef\xbf\xbd" + b[i + 1:]
+                        if go_decode(alt2) == go_decode(b):
+                            pools.append(("b", alt2))
+                        break
             lines.append("%s %d %s" % (r.choice(["tv", "tv", "nsv"]), d, hx(hexb(b))))
         else:
             u = gen_units(r)
